@@ -56,7 +56,7 @@ func genC03(t *rapid.T, protos []vt.NamedProto) c03Case {
 			}
 		}
 		f.Route = rapid.SampledFrom([]string{"lib", "lib", "lib", "lib", "unknown", "empty", "long"}).Draw(t, "route")
-		f.Act = rapid.SampledFrom([]string{"ret", "ret", "err", "panic-s", "panic-e", "panic-st", "slow", "badreply", "bigreply"}).Draw(t, "act")
+		f.Act = rapid.SampledFrom([]string{"ret", "ret", "ret-okstatus", "err", "panic-s", "panic-e", "panic-st", "slow", "badreply", "bigreply"}).Draw(t, "act")
 		f.Body = rapid.SampledFrom([]string{"ok", "ok", "ok", "undecodable", "empty"}).Draw(t, "body")
 		f.Codec = rapid.SampledFrom([]string{"json", "json", "json", "json", "unreg", "zero"}).Draw(t, "codec")
 		if f.Codec == "zero" && rapid.IntRange(0, 3).Draw(t, "rarezero") != 0 {
